@@ -133,6 +133,33 @@ def shard(arg):
             rec.nt.add(hash((cc, b)))
             rec.sample("bban-alias-adjacent", {"cc": cc, "bban": b, "canonical": want, "congruent_alias_exists": alias})
     rec.exhaustive.append("all 100 check-digit pairs for every generated (country, BBAN)")
+    # structured BBANs (prefix / zero run / suffix): assembling gives the reference digits and a valid IBAN; the canonical pair
+    # and its neighbours are probed instead of all 100 (the sweep above covers the pair dimension)
+    from ..lib import IBAN, SchwiftyException
+    for a, z, b in g.zero_run_bbans(cc, rng, fills=3 if tier == "quick" else 24):
+        want = canonical_digits(cc, b)
+        inp = {"cc": cc, "bban": b, "origin": f"zero-run:{a}+{z}"}
+        try:
+            got = str(IBAN.from_bban(cc, b))
+        except SchwiftyException as e:
+            got = f"{type(e).__name__}: {e}"
+        except Exception as e:  # noqa: BLE001
+            got = f"crash {type(e).__name__}: {e}"
+        if got != cc + want + b:
+            rec.fail("from_bban_rejects|zero-run" if ":" in got else "from_bban_wrong_digits|zero-run", "from_bban_valid", inp, cc + want + b, got)
+        w = int(want)
+        for dd in (want, f"{(w + 1) % 100:02d}", f"{(w + 96) % 100:02d}"):
+            try:
+                IBAN(cc + dd + b)
+                ok = True
+            except SchwiftyException:
+                ok = False
+            if ok != (dd == want):
+                rec.fail("pairs|zero-run|" + ("alias_accepted" if ok else "canonical_rejected"), "exactly_one_pair", {**inp, "digits": dd},
+                         dd == want, ok)
+        rec.evals += 4
+        rec.classes["bban-zero-run"] += 1
+        rec.nt.add(hash((cc, b)))
     return rec
 
 
@@ -148,4 +175,4 @@ def run(ctx):
                        "is accepted by IBAN().")
     ctx.assumptions = ["BBAN sampling per country is random; the pair dimension is exhaustive"]
     ctx.pmap(shard, [(cc, ctx.seed, ctx.tier) for cc in o.countries()])
-    ctx.require_classes("bban", "bban-alias-adjacent", "bban-with-congruent-alias")
+    ctx.require_classes("bban", "bban-alias-adjacent", "bban-with-congruent-alias", "bban-zero-run")
